@@ -7,6 +7,7 @@ import Ivg.Gen.Tie.Code.Color
 import Ivg.Gen.Tie.Code.EncColors
 import Ivg.Gen.Tie.Code.DecColors
 import Ivg.Gen.Tie.Code.Resolve
+import Ivg.Gen.Tie.Code.Decoder8
 import Ivg.Obligations
 /-!
 # C09 — colours are stored exactly; colour forms and blending follow the tables
@@ -361,4 +362,7 @@ end Ivg.Props.C09
   Ivg.Gen.Tie.color_Resolve_code_tie,
   Ivg.Gen.Tie.color_Resolve_code_tie_badTyp,
   Ivg.Gen.Tie.renderer_SetCReg_code_tie,
-  Ivg.Gen.Tie.renderer_SetCReg_code_tie']
+  Ivg.Gen.Tie.renderer_SetCReg_code_tie',
+  -- regenerated code (translator) = model, for all inputs: the decoder from bytes to Destination calls (Tie/Code/Decoder*.lean)
+  Ivg.Gen.Tie.decodeSetCReg_code_tie,
+  Ivg.Gen.Tie.decode_Decode_code_tie]
